@@ -29,6 +29,9 @@ def slot_value(x):
 
 def skip(owner, attr):
     # analysis cache written by TypeDependencyAnalysis whether or not anything is mutated; no translator reads it
+    if type(owner).__name__ == 'Context' and attr == '_namespaces':
+        # reverse map keyed by value-equal objects: a deep copy may merge equal keys (harness artifact; see C13/C16)
+        return True
     return type(owner).__name__ == 'FunctionCall' and attr == 'type_parameters'
 
 
